@@ -111,15 +111,17 @@ def share(ctx):
             if is_lock_carrier(f.ret):
                 s = eng.handle_summary(f)
                 if s is None:
-                    ctx.ob(rid, False, f.where, "%s: returned handle understood" % f.name, "no summary",
-                           fn=f.label, inst=f.qname)
+                    ctx.unknown("%s: cannot summarise the handle returned by %s at %s" % (rid, f.name, f.where))
                     continue
                 modes = [(a["mode"], a["site"]) for a in s if a["mutex"] == "this.m_mutex"]
             else:
                 la = eng.locks(f)
                 modes = [(v.mode, f.loc(st)) for _p, _k, v, _kind, st in la.acquire_events
                          if v.mutex == "this.m_mutex"]
-            ok = bool(modes) and all(mo == "S" for mo, _ in modes)
+            if not modes:
+                ctx.unknown("%s: no acquisition of m_mutex recognised in %s at %s" % (rid, f.name, f.where))
+                continue
+            ok = all(mo == "S" for mo, _ in modes)
             ctx.ob(rid, ok, f.where, "%s on M=%s takes m_mutex in shared mode" % (f.name, m),
                    "" if ok else ("exclusive acquisition at %s" % [s for mo, s in modes if mo != "S"][:2]
                                   if modes else "no acquisition of m_mutex found"), fn=f.label, inst=f.qname)
